@@ -28,7 +28,11 @@ class C08(Prop):
                 "NV.C08.command_giver_valid", "NV.C08.command_target_live", "NV.C08.destructed_drops_sentences",
                 "NV.C08.exec_good", "NV.C08.destruct_order_tie", "NV.C08.move_efun_order_tie", "NV.C08.move_order_tie",
                 "NV.C08.load_order_tie", "NV.C08.clone_order_tie", "NV.C08.find_or_load_order_tie",
-                "NV.C08.hb_remove_order_tie", "NV.C08.present2_order_tie", "NV.C08.flag_bits_tie", "NV.C08.superWalk_clear", "NV.C08.acyclic_redirect", "NV.C08.init_inv"]
+                "NV.C08.hb_remove_order_tie", "NV.C08.present2_order_tie", "NV.C08.flag_bits_tie", "NV.C08.superWalk_clear", "NV.C08.acyclic_redirect", "NV.C08.init_inv",
+                "NV.C08.objects_order_tie", "NV.C08.hb_ops_tie", "NV.C08.hash_prefix_tie", "NV.C08.add_action_cond_tie",
+                "NV.C08.living_command_cond_tie", "NV.C08.move_cond_tie", "NV.C08.destruct_cond_tie",
+                "NV.C08.move_walk_terminates", "NV.C08.task_no_hang", "NV.C08.no_hang", "NV.C08.objects_filter_sound",
+                "NV.C08.catch_contains_errors", "NV.C08.catch_restores_guards"]
     consts = [("oDestructed", "O_DESTRUCTED"), ("oEnableCommands", "O_ENABLE_COMMANDS"), ("oClone", "O_CLONE")]
     const_headers = ["lpc/object.h"]
     quick_n = 700
@@ -36,22 +40,31 @@ class C08(Prop):
     search_n = 600
     design_ref = "5/C08"
     technique = ("Lean 4 proof (registry/inventory invariant preserved by every primitive and, by induction on fuel, by every "
-                 "history with re-entrant hooks) + translator-generated hash table + model/implementation correspondence "
-                 "with a walker over the real structures")
+                 "history with re-entrant hooks; crash freedom and termination of the cycle walk; soundness of the "
+                 "objects(filter) walker) + translator-generated hash table, operators, conditions and statement orders + "
+                 "model/implementation correspondence with a walker over the real structures")
     level_text = ("Lean 4 theorems about an executable model of the object registries (otable.c hash chains with "
                   "move-to-front, obj_list, obj_list_destruct, living-name hash, super/contains links) and of load_object, "
                   "clone_object, move_object with its init() fan-out, destruct_object with its move_or_destruct loop and "
-                  "remove_destructed_objects: the invariant WorldInv (lookup = the unique live object of that name; x in "
+                  "remove_destructed_objects, present(), command(), objects(filter) with its callbacks, catch() around any "
+                  "operation, the heart-beat round: the invariant WorldInv (lookup = the unique live object of that name; x in "
                   "contains(y) <-> super(x) = y; no duplicates; forest; destructed objects in no registry, no inventory, "
-                  "without environment) is preserved by every task for all hook oracles, all fuels, all histories; the model "
-                  "is tied to the source by the regenerated Pearson hash table / hash sizes and by running the real driver "
+                  "without environment) is preserved by every task for all hook oracles, all fuels, all histories; no task "
+                  "reaches a NULL / dangling dereference (no_crash) or an endless super walk (no_hang); objects(filter) lists "
+                  "only live objects, in obj_list order (objects_filter_sound); the model is tied to the source by the "
+                  "regenerated Pearson hash table / hash sizes / prefix lengths / comparison operators, by 17 tie obligations "
+                  "over regenerated statement orders and conditions, and by running the real driver "
                   "and the model on the same generated histories with a walker over the real structures after every step; "
                   "the Lean specification oracle judges every implementation trace")
     level_note = ("trusted: Lean kernel; extract.py + props/c08.py gen_extra (regex transcription of T[], ObjHash, "
                   "hash_living_name); the correspondence harness (differential, only the generated histories); hooks are oracle "
-                  "scripts; crash freedom is proved (no_crash); termination of the super walk is not ("
-                  "never observed to be `hang`) nor the string-level top theorem judge(model trace) = []")
-    rule = ("[audit round: adds move_object(string) / first_inventory(string) with loads that run create() hooks, present() with "
+                  "scripts; crash freedom and termination of the super walk are proved (no_crash, no_hang); the string-level "
+                  "top theorem judge(model trace) = [] is not (its semantic clauses are the invariant theorems); "
+                  "destructed_never_called is about the model's apply - the C apply() does not refuse destructed objects, "
+                  "each call site tests first (checked by the oracle clause destructed-called on every logged callback)")
+    rule = ("[extend round: adds objects(filter) issued from the top level and from hooks with filters that destruct the "
+            "object asked about / others / the caller, clone, move, nest, raise errors; catch() around destructs, moves, "
+            "loads and error() inside every hook kind; oracle self-test of 94 traces] [audit round: adds move_object(string) / first_inventory(string) with loads that run create() hooks, present() with "
             "id() hooks, add_action / command(), the backend tick (heart_beat() of every enabled object incl. the last one "
             "destructing itself), errors inside every hook kind, heart_beats() listing; oracle self-test of 82 traces] "
             "cases = corpus + known-finding inputs + boundary list (failing moves, self-destructing create, destruct during the "
@@ -62,10 +75,9 @@ class C08(Prop):
             "after every step (small) or periodically (large); a case is non-trivial when its trace has >= 2 lines; "
             "distinct = distinct canonical implementation trace")
     not_covered = ["add_action flags (V_SHORT / V_NOSPACE), function-pointer actions, action functions returning 0 (illegal_sentence_action), remove_action, notify_fail",
-                   "virtual objects (master compile_object), the master / simul_efun reload path of destruct_object, shadows, swapping, sockets",
-                   "catch() inside hooks (error_handler resets restrict_destruct even for caught errors)",
-                   "objects(filter) with a filter that destructs objects walks next_all into obj_list_destruct (by reading; not generated)",
-                   "termination of move_object's super walk (outcome `hang`) is not proved (crash freedom is: no_crash)",
+                   "virtual objects (master compile_object), the master / simul_efun reload path of destruct_object, swapping, sockets (shadows are compiled out: NO_SHADOWS)",
+                   "objects(filter): the function-pointer form, O_HIDDEN / valid_hide, populations above 1000 objects (extend_string branch); completeness (every object live before and after is listed) is an oracle clause, not a theorem",
+                   "present() 1-argument / object-argument forms, deep_inventory, say / tell_room / shout walks (no listener objects), reset() / clean_up() walk of look_for_objects_to_swap",
                    "the string-level top theorem judge(model trace) = [] is not proved; its semantic clauses are (reachable_inv, no_crash, init_only_adjacent, destructed_never_*)",
                    "call_out / heart_beat / input_to references to destructed objects (C10, C11)"]
 
@@ -86,13 +98,15 @@ class C08(Prop):
             from nvlib.extract import TieBroken
             raise TieBroken("rc.cpp:living", "__LIVING_HASH_TABLE_SIZE__ assignment not found in lib/rc/rc.cpp")
         ot = open(os.path.join(E.REPO, "lib/lpc/otable.c")).read()
-        if not re.search(r"#define\s+ObjHash\(s\)\s+whashstr\(s,\s*40\)\s*&\s*otable_size_minus_one", ot):
+        m_oh = re.search(r"#define\s+ObjHash\(s\)\s+whashstr\(s,\s*(\d+)\)\s*&\s*otable_size_minus_one", ot)
+        if not m_oh:
             from nvlib.extract import TieBroken
-            raise TieBroken("otable.c:ObjHash", "ObjHash is no longer whashstr(s, 40) & otable_size_minus_one")
+            raise TieBroken("otable.c:ObjHash", "ObjHash is no longer whashstr(s, <n>) & otable_size_minus_one")
         ob = open(os.path.join(E.REPO, "lib/lpc/object.c")).read()
-        if not re.search(r"return\s+whashstr\s*\(str,\s*20\)\s*%\s*CONFIG_INT\s*\(__LIVING_HASH_TABLE_SIZE__\)", ob):
+        m_lh = re.search(r"return\s+whashstr\s*\(str,\s*(\d+)\)\s*%\s*CONFIG_INT\s*\(__LIVING_HASH_TABLE_SIZE__\)", ob)
+        if not m_lh:
             from nvlib.extract import TieBroken
-            raise TieBroken("object.c:hash_living_name", "hash_living_name is no longer whashstr(str, 20) % size")
+            raise TieBroken("object.c:hash_living_name", "hash_living_name is no longer whashstr(str, <n>) % size")
         # ---- statement order of the functions the model mirrors: regenerated, tied by `*_order_tie` theorems ----
         from nvlib.extract import TieBroken
 
@@ -205,13 +219,62 @@ class C08(Prop):
                 ("left-env-return", r"if \(ob->super != env\)\s*return 0;"),
                 ("zero-continue", r"if \(IS_ZERO \(ret\)\)\s*continue;")]),
         }
+        # ---- comparison operators / conditions the model mirrors: regenerated (the model USES the operators of the
+        # heart-beat adjustment; the conditions are compared as normalised text by `*_cond_tie` theorems) ----
+        def norm(t):
+            return re.sub(r"\s+", " ", t).strip()
+
+        def cond(path, header_re, rx, name):
+            b = body_of(path, header_re)
+            m = re.search(rx, b, re.S)
+            if not m:
+                raise TieBroken("%s:%s" % (path, name), "condition %s (%s) not found" % (name, rx))
+            return norm(m.group(1))
+        hb_hdr = r"\nint set_heart_beat \(object_t \* ob, int to\) \{"
+        ops = {"hbIdxOp": cond("src/backend.c", hb_hdr, r"if \(index (<=|<|>=|>|==|!=) heart_beat_index\)\s*heart_beat_index--;", "hbIdxOp"),
+               "hbTodoOp": cond("src/backend.c", hb_hdr, r"if \(index (<=|<|>=|>|==|!=) num_hb_to_do\)\s*num_hb_to_do--;", "hbTodoOp")}
+        conds = {
+            "addActionNearCond": cond("src/simulate.c", r"\nvoid add_action \(svalue_t \* str, char \*cmd, int flag, int num_carry, svalue_t \*carry_args\) \{",
+                                      r"return;\s*if \((ob != command_giver.*?)\)\s*return;", "addActionNearCond"),
+            "addActionGiverCond": cond("src/simulate.c", r"\nvoid add_action \(svalue_t \* str, char \*cmd, int flag, int num_carry, svalue_t \*carry_args\) \{",
+                                       r"if \((command_giver == 0[^;{]*?)\)\s*return;", "addActionGiverCond"),
+            "findLivingFilterCond": cond("lib/lpc/object.c", r"\nobject_t\* find_living_object \(char \*str, int user\) \{",
+                                         r"if \((!\(\(\*obp\)->flags & O_ENABLE_COMMANDS\))\)\s*continue;", "findLivingFilterCond"),
+            "moveInitDestRecheck": cond("src/simulate.c", r"\nvoid move_object \(object_t \* item, object_t \* dest\) \{",
+                                        r"apply \(APPLY_INIT, dest, 0[^;]*;\s*if \((.*?)\)\s*\{", "moveInitDestRecheck"),
+            "moveCycleTest": cond("src/simulate.c", r"\nvoid move_object \(object_t \* item, object_t \* dest\) \{",
+                                  r"for \(ob = dest; ob; ob = ob->super\)\s*(?:\{\s*)?if \((.*?)\)\s*error", "moveCycleTest"),
+            "destructNestedCond": cond("src/simulate.c", r"\nvoid destruct_object \(object_t \* ob\) \{",
+                                       r"if \(([^()]*)\)\s*/\* not moved elsewhere", "destructNestedCond"),
+            "destructRestrictCond": cond("src/simulate.c", r"\nvoid destruct_object \(object_t \* ob\) \{",
+                                         r"if \((restrict_destruct[^()]*)\)\s*error", "destructRestrictCond"),
+            "userParserSkipCond": cond("src/simulate.c", r"\nint user_parser \(char \*buff\) \{",
+                                       r"if \((s->ob->flags & O_DESTRUCTED)\)\s*continue;", "userParserSkipCond"),
+            "objectsFilterSkipCond": cond("lib/lpc/array.c", r"\nf_objects \(void\)\s*\{",
+                                          r"ob = tmp\[j\];\s*if \((.*?)\)\s*continue;", "objectsFilterSkipCond"),
+        }
+        orders["objectsOrder"] = order("lib/lpc/array.c", r"\nf_objects \(void\)\s*\{", [
+            ("collect-loop", r"for \(n = 0, ob = obj_list; ob; ob = ob->next_all\)"),
+            ("collect", r"tmp\[n\] = ob;"),
+            ("filter-loop", r"for \(i = 0, j = 0; j < n; j\+\+\)"),
+            ("skip-destructed", r"ob = tmp\[j\];\s*if \(ob->flags & O_DESTRUCTED\)\s*continue;"),
+            ("caller-destructed-error", r"if \(current_object->flags & O_DESTRUCTED\)\s*error \(\"\*Object destructed during efun callback"),
+            ("apply-filter", r"v = apply \(func, current_object, 1, ORIGIN_EFUN\);"),
+            ("apply-failed-return-0", r"ORIGIN_EFUN\);\s*if \(!v\)"),
+            ("accept", r"tmp\[i\+\+\] = ob;"),
+            ("drop-destructed-accepted", r"if \(!\(tmp\[j\]->flags & O_DESTRUCTED\)\)\s*tmp\[i\+\+\] = tmp\[j\];"),
+            ("build-array", r"ret = allocate_empty_array \(i\);")])
         # the error texts the model reproduces must still be in the source
         texts = {"errInsideSrc": ("src/simulate.c", "*Can't move object inside itself."),
                  "errDestDestSrc": ("src/simulate.c", "*Can't move to a destructed object."),
                  "errMoveDestedSrc": ("lib/efuns/inventory.c", "move_object(): can't move a destructed object"),
                  "errNoDestSrc": ("lib/efuns/inventory.c", "move_object failed: could not find destination"),
                  "errRestrictSrc": ("src/simulate.c", "*Only this_object() can be destructed from move_or_destruct."),
-                 "errCloneCloneSrc": ("src/simulate.c", "*Cannot clone from a clone!")}
+                 "errCloneCloneSrc": ("src/simulate.c", "*Cannot clone from a clone!"),
+                 "errEfunCbSrc": ("lib/lpc/array.c", "*Object destructed during efun callback."),
+                 "errInitDestedSrc": ("src/simulate.c", "*An object was destructed at call of "),
+                 "errItemDestedSrc": ("src/simulate.c", "*The object to be moved was destructed at call of "),
+                 "errDestGoneSrc": ("src/simulate.c", "*The destination to move to was destructed at call of ")}
         tl = []
         for name, (path, txt) in texts.items():
             if txt not in open(os.path.join(E.REPO, path)).read():
@@ -221,7 +284,13 @@ class C08(Prop):
         for name, lst in orders.items():
             ol.append("/-- statement order in the C source (first occurrences), regenerated on every run -/\n"
                       "def %s : List String := [%s]" % (name, ", ".join('"%s"' % x for x in lst)))
-        out = ol + tl + ["/-- lib/misc/hash.c `T[]` -/",
+        cl = []
+        for name, txt in list(ops.items()) + list(conds.items()):
+            cl.append('/-- condition / operator in the C source (whitespace normalised), regenerated on every run -/\n'
+                      'def %s : String := "%s"' % (name, txt.replace('\\', '\\\\').replace('"', '\\"')))
+        cl.append("/-- prefix lengths hashed by ObjHash (lib/lpc/otable.c) and hash_living_name (lib/lpc/object.c) -/\n"
+                  "def objHashPrefix : Nat := %s\ndef livingHashPrefix : Nat := %s" % (m_oh.group(1), m_lh.group(1)))
+        out = ol + tl + cl + ["/-- lib/misc/hash.c `T[]` -/",
                "def pearsonT : Array Nat := #[%s]" % ", ".join(str(x) for x in nums),
                "/-- lib/rc/rc.cpp `__LIVING_HASH_TABLE_SIZE__` -/",
                "def livingHashSize : Nat := %s" % m2.group(1),
@@ -295,6 +364,20 @@ class C08(Prop):
         mk("references-read-zero", """t ld,b0\nt cl,b0\nt kp,o3\nt rd\nscript o3 create kp,o2;rd\nt de,o3\nt rd\nt kp,o3\nt mv,o3,o2\nt mv,o2,o3\nt ec,o3\nt ln,o3,x\nt de,o3\ngc\nt rd\n""" + tail)
         mk("reload-after-destruct", "t ld,b0\nt cl,b0\nt de,o2\nt fo,b0\nt ld,b0\nt fo,b0\nt cl,b0\nt fo,b0#1\nt fo,b0#2\ngc\nt de,o4\nt ld,b0\n" + tail)
         mk("find-moves-to-front", "t ld,b0\nt ld,b1\nt ld,b2\nt ld,b3\nt ld,b4\nt ld,b5\nt ld,b6\nt ld,b7\nsnap\nt fo,b0\nt fo,b3\nt fo,b5\nsnap\nt de,o4\nt de,o9\n" + tail)
+        # objects(filter): the filter destructs the object it is asked about / earlier / later ones, with a non-empty
+        # destruct list; called from an object that destructs itself; nested; with an error
+        mk("objects-filter-destructs-the-listed-object", "script o1 ofilt nop\nscript o1 ofilt de,o4\nt ld,b0\nt cl,b0\nt cl,b0\nt ld,b1\nsnap\nt obf\n" + tail)
+        mk("objects-filter-variants", """script o1 ofilt de,o6\nscript o1 ofilt de,o3\nscript o1 ofilt cl,b1\nscript o1 ofilt mv,o2,o4\nscript o1 ofilt nop\nscript o1 ofilt de,o2
+            script o4 ofilt nop\nscript o4 ofilt de,o4\nscript o7 ofilt err\nscript o1 ofilt nop\nscript o1 ofilt obf\nscript o1 ofilt de,o5
+            t ld,b0\nt cl,b0\nt cl,b0\nt cl,b0\nt cl,b0\nt de,o5\nt obf\nsnap\nprobe\nt kp,o4\nscript o1 act nop\nt obf\n""" + tail)
+        mk("objects-filter-from-objects", """script o3 create obf\nscript o3 ofilt de,o3\nscript o4 init obf\nscript o4 ofilt nop\nscript o4 ofilt de,o2
+            t ld,b0\nt cl,b0\nsnap\nt cl,b0\nt ec,o4\nt ld,b1\nt mv,o4,o5\n""" + tail)
+        # catch(): a caught error must leave the guards (restrict_destruct, command_giver) as they were at the catch
+        mk("catch-in-move_or_destruct", """script o3 mod ct,de,o4;de,o4;ct,err;de,o3\nscript o4 mod ct,de,o2;mvarg\nt ld,b0\nt cl,b0\nt cl,b0\nt ld,b1
+            t mv,o3,o2\nt mv,o4,o2\nt mv,o2,o5\nt de,o2\nsnap\nt ct,de,o4\nt de,o5\n""" + tail)
+        mk("catch-variants", """script o3 init ct,err;aa,o3,va\nscript o3 act ct,mv,o4,o4;ct,de,o3\nscript o2 hbeat ct,err;de,o4\nscript o5 create ct,err;ct,mv,o5,o5
+            t ld,b0\nt cl,b0\nt cl,b0\nt ec,o4\nt mv,o4,o2\nt mv,o3,o2\nsnap\nt cmd,o4,va\nsnap\nt hbe,o2\ntick\nsnap\nprobe\ntick
+            t ct,cl,b0\nt ct,ld,bad\nt ct,mvs,o2,nx\nt ct,mv,o2,o2\nt ct,nop\nt ct,err\nt de,o2\n""" + tail)
         # large population: every hash chain is long
         big = ["t ld,b%d" % k for k in range(120)] + ["t cl,b%d" % (k % 7) for k in range(100)]
         big += ["t mv,o%d,o%d" % (k + 30, 2 + k % 25) for k in range(150)]
@@ -304,17 +387,23 @@ class C08(Prop):
         return B
 
     OPS = [("ld", 9), ("cl", 14), ("mv", 28), ("de", 9), ("ec", 14), ("dc", 2), ("ln", 4), ("fo", 5), ("fl", 3),
-           ("kp", 3), ("rd", 2), ("err", 1), ("aa", 9), ("cmd", 8), ("mvs", 10), ("fis", 3), ("pr", 6), ("hbe", 7), ("hbd", 2)]
+           ("kp", 3), ("rd", 2), ("err", 1), ("aa", 9), ("cmd", 8), ("mvs", 10), ("fis", 3), ("pr", 6), ("hbe", 7), ("hbd", 2), ("obf", 3), ("ct", 4)]
     HOPS = [("ld", 5), ("cl", 8), ("mv", 24), ("de", 14), ("ec", 5), ("dc", 1), ("ln", 2), ("fo", 2), ("fl", 1),
-            ("kp", 2), ("rd", 2), ("err", 2), ("mvarg", 6), ("nop", 2), ("aa", 10), ("cmd", 3), ("mvs", 6), ("fis", 2), ("pr", 2), ("hbe", 2), ("hbd", 2)]
+            ("kp", 2), ("rd", 2), ("err", 2), ("mvarg", 6), ("nop", 2), ("aa", 10), ("cmd", 3), ("mvs", 6), ("fis", 2), ("pr", 2), ("hbe", 2), ("hbd", 2), ("obf", 1), ("ct", 6)]
 
     def gen_op(self, rng, st, table, self_id=None):
         k = rng.weighted(table)
+        if k == "ct":
+            # catch() around one op (mostly one that can fail: destructs inside move_or_destruct, bad moves, error())
+            inner = "ct"
+            while inner.startswith("ct") or inner.startswith("obf"):
+                inner = self.gen_op(rng, st, [("de", 8), ("mv", 6), ("err", 4), ("mvs", 2), ("ld", 1), ("cl", 2), ("cmd", 1), ("pr", 1)], self_id)
+            return "ct," + inner
         hi = max(2, st["top"] + 1 + (st["est"] - st["top"]) // 2)
 
         def oid():
             # mostly existing objects, sometimes the executing object, rarely one that does not exist (yet)
-            if self_id is not None and rng.chance(1, 4):
+            if self_id is not None and self_id >= 2 and rng.chance(1, 4):   # (the master is not in its own registry)
                 return "o%d" % self_id
             return "o%d" % rng.range(2, hi)
         if k in ("ld", "cl"):
@@ -391,9 +480,12 @@ class C08(Prop):
             # scripts for hooks that may fire during this step
             while nscripts < 14 and rng.chance(2, 5):
                 nscripts += 1
-                hk = rng.weighted([("create", 3), ("init", 6), ("mod", 5), ("act", 3), ("id", 4), ("hbeat", 6)])
+                hk = rng.weighted([("create", 3), ("init", 6), ("mod", 5), ("act", 3), ("id", 4), ("hbeat", 6), ("ofilt", 3)])
                 if hk == "create":
                     target = st["est"] + 1 + rng.below(2)
+                elif hk == "ofilt":
+                    # the filter runs in the object that calls objects(filter): mostly the master (top-level `t obf`)
+                    target = 1 if rng.chance(3, 4) else rng.range(2, max(2, st["est"] + 1))
                 else:
                     target = rng.range(2, max(2, st["est"] + 1))
                 ops = [self.gen_op(rng, st, self.HOPS, target) for _ in range(rng.range(1, 3))]
@@ -420,6 +512,20 @@ class C08(Prop):
                 body.append("t pr,o%d,o%d" % (e, rng.choice(xs)))
                 if rng.chance(1, 2):
                     body.append("t pr,o%d,o%d" % (e, rng.choice(xs)))
+            elif rng.chance(1, 9) and st["top"] >= 3:
+                # objects(filter): the filter (called once per object, newest first) destructs the object it is asked
+                # about, one it was asked about earlier, one still to come, or creates / moves objects
+                ncall = rng.range(0, min(6, st["top"]))
+                for _ in range(ncall):
+                    st.setdefault("extra_scripts", []).append("script o1 ofilt nop")
+                for _ in range(rng.range(1, 3)):
+                    x = rng.range(max(2, st["top"] - ncall - 2), st["top"] + 1)
+                    what = rng.weighted([("de,o%d" % x, 8), ("mv,o%d,o%d" % (x, rng.range(2, st["top"] + 1)), 2),
+                                         ("cl,b%d" % rng.below(st["nbp"]), 2), ("ct,de,o%d" % x, 1), ("err", 1), ("obf", 1)])
+                    st.setdefault("extra_scripts", []).append("script o1 ofilt %s" % what)
+                if rng.chance(1, 3):
+                    body.append("t de,o%d" % rng.range(2, st["top"] + 1))   # something already on the destruct list
+                body.append("t obf")
             elif rng.chance(1, 7):
                 # the backend tick: heart_beat() of every enabled object (driver-initiated calls)
                 if rng.chance(1, 3) and st["top"] >= 2:
@@ -469,7 +575,7 @@ class C08(Prop):
 
     def histogram(self, cases, impl):
         h = {"objects_created": 0, "moves_ok": 0, "moves_refused": 0, "destructs": 0, "hooks_create": 0, "hooks_init": 0,
-             "hooks_mod": 0, "hooks_act": 0, "hooks_id": 0, "hooks_hbeat": 0, "ticks": 0, "present_hit": 0, "present_miss": 0, "commands_hit": 0, "commands_miss": 0, "add_actions": 0, "errors": 0, "gone_reads": 0, "snapshots": 0, "probes": 0, "max_population": 0, "scripts": 0}
+             "hooks_mod": 0, "hooks_act": 0, "hooks_id": 0, "hooks_hbeat": 0, "hooks_ofilt": 0, "caught": 0, "objects_filter_calls": 0, "ticks": 0, "present_hit": 0, "present_miss": 0, "commands_hit": 0, "commands_miss": 0, "add_actions": 0, "errors": 0, "gone_reads": 0, "snapshots": 0, "probes": 0, "max_population": 0, "scripts": 0}
         for c in cases:
             pop = 0
             for l in impl.get(c.id, []):
@@ -482,6 +588,10 @@ class C08(Prop):
                     pop += 1
                 elif t[0] == "hb":
                     h["hooks_" + t[2]] += 1
+                elif t[0] == "caught":
+                    h["caught"] += 1
+                elif t[0] == "obfb":
+                    h["objects_filter_calls"] += 1
                 elif t[0] == "err":
                     h["errors"] += 1
                     if "destructed object" in l:
@@ -609,6 +719,18 @@ class C08(Prop):
             ("present-wrong-object", born + mv + ["r pr o2 o9 o3"]),
             ("destruct-refused", born + ["deb o3", "err *Only this_object() can be destructed from move_or_destruct."]),
             ("ok", born + mv + ["deb o2", "hb o3 mod 0", "deb o2", "err *Only this_object() can be destructed from move_or_destruct."]),
+            ("ok", born + ["obfb o1 o2,o3", "hb o1 ofilt o3", "deb o3", "r de o3 ok", "he o1 ofilt", "hb o1 ofilt o2", "he o1 ofilt", "r obf o1 o2,o1,o0 o2"]),
+            ("destructed-listed", born + ["obfb o1 o2,o3", "hb o1 ofilt o3", "deb o3", "r de o3 ok", "he o1 ofilt", "r obf o1 0 o2"]),
+            ("objects-filter-missed", born + ["obfb o1 o2,o3", "hb o1 ofilt o3", "he o1 ofilt", "r obf o1 o3 o2,o3"]),
+            ("destructed-listed", born + ["obfb o1 o2,o3", "hb o1 ofilt 0", "he o1 ofilt", "r obf o1 o2,o3 o2,o3"]),
+            ("destructed-listed", born + ["obfb o1 o2,o3", "r obf o1 o2,o3 o2"]),
+            ("destructed-visible", dead3 + ["obfb o1 o2", "r obf o1 o2,o3 o2,o3"]),
+            ("objects-filter-mismatch", born + ["obfb o1 o2,o3", "r obf o1 o2,o2,o3 o2,o3"]),
+            ("objects-filter-mismatch", born + ["obfb o1 o2,o3", "r obf o1 !0 o2,o3"]),
+            ("ok", born + mv + ["deb o2", "hb o3 mod 0", "ctb o3", "deb o2", "caught *Only this_object() can be destructed from move_or_destruct.", "r ct o3 1", "he o3 mod", "r de o2 ok"]),
+            ("destruct-refused", born + ["ctb o1", "deb o3", "caught *Only this_object() can be destructed from move_or_destruct.", "r ct o1 1"]),
+            ("frame-mismatch", born + ["r ct o1 0"]),
+            ("frame-mismatch", born + ["ctb o1", "deb o3", "r ct o1 0"]),
             ("walker", ["W ot-destructed o2"]),
             ("crash", ["crash signal 11"]),
             ("memory-error", ["sanitizer ERROR: AddressSanitizer: heap-use-after-free"]),
